@@ -193,6 +193,8 @@ def _leftover(tokens) -> bool:
 def check(case) -> Res:
     from markdown_it.tree import SyntaxTreeNode
 
+    if case.get("kind") == "concurrent":
+        return check_concurrent(case)
     res = Res()
     src = case["src"]
     if case.get("kind") == "enum":
@@ -242,8 +244,73 @@ def check(case) -> Res:
     return res
 
 
+CONC_DOCS = [
+    ("1. a **b** \\* &amp; `c` ![i \\_ &lt;](/u)\n\n> *q* ~~s~~ [l *m*](v)\n", "# h \\# &#35;\n\n- *e* __f__ ![x *y* \\*](s) &copy;\n\n| a |\n|---|\n| *b* |\n"),
+]
+CONC_CFGS = [C.simple("commonmark"), C.simple("js-default")]
+_CONC_WARM: set = set()
+
+
+def concurrent_cases(tier: str, shard: int, nshards: int):
+    """First use of a fresh instance by two parses at once (byte-code scheduler, call 1 pre-empted once): whatever C13
+    says about the results, every stream that is returned must be well formed."""
+    idx = 0
+    for ci in range(len(CONC_CFGS)):
+        for di in range(len(CONC_DOCS)):
+            for focus, n in ((False, 48 if tier == "quick" else 600), (True, 240 if tier == "quick" else 4000)):
+                for i in range(n):
+                    idx += 1
+                    if idx % nshards == shard:
+                        yield {"kind": "concurrent", "cfgi": ci, "docs": di, "num": i, "den": n, "focus": focus}
+
+
+def check_concurrent(case) -> Res:
+    from markdown_it.tree import SyntaxTreeNode
+
+    from .. import sched
+
+    res = Res()
+    cfg = CONC_CFGS[case["cfgi"]]
+    docs = CONC_DOCS[case["docs"]]
+    key = (case["cfgi"], case["docs"])
+    if key not in _CONC_WARM:
+        for dd in docs:
+            C.build(cfg).parse(dd)
+        _CONC_WARM.add(key)
+    md0 = C.build(cfg)
+    rec = sched.Sched([lambda: md0.parse(docs[0])], [], 10**7, record_focus=True)
+    _r, counts = rec.run()
+    if case.get("focus"):
+        if not rec.focus:
+            return res
+        k = rec.focus[min(len(rec.focus) - 1, len(rec.focus) * case["num"] // case["den"])]
+    else:
+        k = max(1, counts[0] * case["num"] // case["den"])
+    md = C.build(cfg)
+    s = sched.Sched([lambda: md.parse(docs[0]), lambda: md.parse(docs[1])], [k, sched.BIG], 20 * counts[0] + 10**5)
+    results, _ = s.run()
+    res.cls.append("concurrent-first-use")
+    res.nt = s.switches >= 1
+    stats = {"maxdepth": 0, "image_children": 0, "emph": False}
+    for i, r in enumerate(results):
+        if r is not None and r[0] == "ok" and isinstance(r[1], list):
+            check_stream(r[1], True, res, f"concurrent-parse-{i}", stats)
+            try:
+                SyntaxTreeNode(r[1])
+            except Exception as e:  # noqa: BLE001
+                res.fail(f"tree-construction:concurrent:{type(e).__name__}", repr(e))
+        else:
+            res.cls.append("concurrent:call-did-not-return(C13 decides)")
+    return res
+
+
 def extra_phase(tier, seed, shard, nshards, coll):
-    """thorough tier: an atheris (libFuzzer) campaign with this module's oracle inside the target."""
+    """A deterministic concurrency clause in both tiers; thorough tier: an atheris (libFuzzer) campaign with this module's
+    oracle inside the target."""
+    for case in concurrent_cases(tier, shard, nshards):
+        coll.run_case(case, "enum")
+    if tier != "thorough":
+        return
     from ..fuzz import atheris_phase
 
     atheris_phase(__import__("sys").modules[__name__], tier, seed, shard, nshards, coll, int(__import__("os").environ.get("VERIF_ATHERIS_SECONDS", "300")))
